@@ -22,7 +22,7 @@ INFO = {
     "path, '.' written '_').  Natively: the nonterminal and terminal key sets equal the flattened grammar's (each file's "
     "rules once).  Symbolically, w with len(w) <= N: same acceptance and same result from the LR parsers, same number of "
     "trees and same call_actions results from the GLR parsers.",
-    "bounds": {"quick": {"layouts": 12, "N": 5}, "thorough": {"layouts": 12, "N": 7}},
+    "bounds": {"quick": {"layouts": 12, "N": 5}, "thorough": {"layouts": 12, "N": 6}},
     "outside": "inputs longer than N; layouts other than the listed ones; *_actions.py / *_recognizers.py companions; named matches",
     "assumptions": ["get_context stubbed; realize-atomic marks", "hand-flattened grammars are the reference"],
 }
@@ -68,7 +68,7 @@ atexit.register(lambda: [shutil.rmtree(d, ignore_errors=True) for d in _dirs])
 
 def cases(tier, seed):
     out = []
-    N = 5 if tier == "quick" else 7
+    N = 5 if tier == "quick" else 6
     for nm in LAYOUTS:
         out.append({"name": "%s|N=%d" % (nm, N), "params": {"layout": nm, "N": N}, "budget_s": 3000})
     # ignore_case must reach the terminals of imported files too (letters in the imported terminals; inputs with either case)
